@@ -5,7 +5,8 @@
     buffer, C API last-error record, object reference counts, the harness's own read of bloc_errno/strerror);
     depth-first over all choice sequences with at most B preemptions (iterative context bounding); every
     schedule's per-thread output / result / error / final variables must equal the sequential run, and the
-    original context must be unchanged. One schedule per program is replayed twice (determinism).
+    original context must be unchanged. The sequential run in clones must itself equal runs of the same texts in
+    contexts that were never cloned (a clone starts with copies of the original's variables and functions). One schedule per program is replayed twice (determinism).
 (2) Free-running ThreadSanitizer pass over the same harness bodies (2, 4, 8 threads): no data race in the library.
 (3) All orders (length <= 6) of clone / run in clone / run in original / purge original / free original /
     free clone / free executable that respect the documented preconditions, against a sequential model, under ASan.
